@@ -152,6 +152,23 @@ def select_stmts(fn, sp):
             scope = list(ast.walk(fn))
         hits = [x for x in scope if isinstance(x, ast.expr) and ast.unparse(x) == want]
         hits.sort(key=lambda x: (x.lineno, x.col_offset))
+        if getattr(sp, "whole", False):
+            # only occurrences that are a complete decision / value: the test of if / while / conditional expression /
+            # assert, the value of return / assignment / expression statement, the iterable of a for loop
+            # (`nth` counts among these); a test that gained or lost an operand is no longer found
+            whole = set()
+            for x in scope:
+                if isinstance(x, (ast.If, ast.While, ast.IfExp, ast.Assert)):
+                    whole.add(id(x.test))
+                elif isinstance(x, (ast.Return, ast.Assign, ast.AugAssign, ast.AnnAssign, ast.Expr)) and x.value is not None:
+                    whole.add(id(x.value))
+                elif isinstance(x, ast.For):
+                    whole.add(id(x.iter))
+            n_all = len(hits)
+            hits = [x for x in hits if id(x) in whole]
+            if sp.nth >= len(hits):
+                raise Refuse("expression %r occurs %d times as a whole test / value (%d times as a sub-expression)"
+                             % (sp.expr, len(hits), n_all))
         if sp.nth >= len(hits):
             raise Refuse("expression %r occurs %d times" % (sp.expr, len(hits)))
         node = hits[sp.nth]
@@ -225,7 +242,7 @@ class Res:
 class Spec:
     def __init__(self, group, lean, file, qual, params, binds=None, calls=None, stmts=None, result=None,
                  ret=None, opaque=None, records=None, stores=None, path=None, expr=None, nth=0, drop=None,
-                 excs=None, reraise=None, nonneg=None, via=None, inert=None, note=""):
+                 excs=None, reraise=None, nonneg=None, via=None, inert=None, whole=False, note=""):
         self.group, self.lean, self.file, self.qual = group, lean, file, qual
         self.params = params              # [(python name, type)]
         self.binds = binds or []          # [(source expression text, lean/python param name, type)]
@@ -241,6 +258,7 @@ class Spec:
         self.expr, self.nth = expr, nth   # translate only the nth sub-expression with this source text (`return <expr>`)
         self.drop = drop or []            # call texts / statement text prefixes to ignore (notify(), queue.append(..))
         self.excs = excs or {}            # exception class text -> Exc constructor name (module-local classes)
+        self.whole = whole                # with `expr=`: only occurrences that are a whole test / value (see select_stmts)
         self.inert = inert or []          # call targets allowed inside dropped calls / messages (effect-free constructors)
         self.via = via                    # name of a subclass (same module): `cls.X`/`self.X` constants are read there first
         self.nonneg = nonneg or []        # parameters/binds declared >= 0 (precondition of the cut, said in the note)
